@@ -113,9 +113,9 @@ def dep_closure(target_rel):
 
 
 def coq_make(timeout=3000, target=None):
-    """Full .vo build of the development (incremental; no -vos). Serialised by a file lock.
-    With target='props/Cxx.v' a failure in a file outside that file's dependency closure is only
-    reported in the log (other properties' files may be mid-edit); setup.sh always demands a full build."""
+    """Full .vo build (no -vos). With target='props/Cxx.v' only that file's dependency closure is built
+    (`make props/Cxx.vo`), so a slow or broken file of another property cannot block or fail this check;
+    setup.sh always builds everything. Only the (re)generation of _CoqProject/Makefile is serialised."""
     import fcntl
     t0 = time.time()
     os.makedirs(os.path.join(COQ, "cases"), exist_ok=True)
@@ -126,22 +126,16 @@ def coq_make(timeout=3000, target=None):
         if changed or not os.path.exists(os.path.join(COQ, "Makefile")):
             subprocess.run(["coq_makefile", "-f", "_CoqProject", "-o", "Makefile"], cwd=COQ, check=True,
                            stdout=subprocess.DEVNULL)
-        r = subprocess.run(["timeout", str(timeout), "make", "-k", "-j16"], cwd=COQ, stdout=subprocess.PIPE,
-                           stderr=subprocess.STDOUT, text=True)
-        ok = r.returncode == 0
-        log = r.stdout
-        if not ok and target:
-            failed = set(re.findall(r'File "\./([^"]+\.v)"', log))
-            failed |= {m[:-1] for m in re.findall(r"\[(?:Makefile[^\]]*: )?([\w/]+\.vo)\] Error", log)}
-            clo = dep_closure(target)
-            relevant = failed & clo
-            if failed and not relevant:
-                ok = True
-                log = f"[note] unrelated files failed to build: {sorted(failed)}\n" + log
-        return ok, log, time.time() - t0
     finally:
         fcntl.flock(lock, fcntl.LOCK_UN)
         lock.close()
+    cmd = ["timeout", str(timeout), "make", "-j16"]
+    if target:
+        cmd.append(target + "o")          # props/Cxx.v -> props/Cxx.vo
+    else:
+        cmd.insert(3, "-k")
+    r = subprocess.run(cmd, cwd=COQ, stdout=subprocess.PIPE, stderr=subprocess.STDOUT, text=True)
+    return r.returncode == 0, r.stdout, time.time() - t0
 
 
 AUDIT_RE = re.compile(
